@@ -15,6 +15,7 @@ type TypeFixture struct {
 	Fn         string // function / method name stem
 	Short      bool   // one-letter class names
 	Hier       *hierFixture
+	Quick      bool // quick tier: the "-default" parameter forms use a reduced value set
 }
 
 // newShortTypeFixture uses one-letter class names (seeded choice of letters).
@@ -236,6 +237,14 @@ func (tf *TypeFixture) prelude() string {
 const tryHead = "$st = \"denied\";\ntry { "
 const tryEnd = " $st = \"ok\"; } catch (\\Throwable $e) { $st = \"denied\"; }\n"
 
+// quickDeclType: the declared types of the quick tier (thorough runs all 31)
+var quickDeclType = map[string]bool{
+	"int": true, "string": true, "array": true, "C": true, "I": true,
+	"?int": true, "?string": true, "?array": true, "?C": true, "?I": true,
+	"int|string": true, "int|C": true, "array|I": true, "string|array": true, "C|I": true, "C|int": true, "I|string": true,
+	"int|null": true, "C|null": true, "null|int": true, "int|string|array": true, "array|C|null": true,
+}
+
 func (tf *TypeFixture) shape(t declType) string {
 	if len(t.atoms) > 1 && !t.nullQ && (t.atoms[0] == "C" || t.atoms[0] == "I") {
 		n := tf.C
@@ -255,11 +264,17 @@ func genTypeCases(tf *TypeFixture) []*Case {
 		if tf.Short {
 			switch bd.name {
 			case "func-param", "prop-arrow", "func-return", "method-return", "ctor-param":
+				if tf.Quick && bd.name != "func-param" && bd.name != "func-return" {
+					continue
+				}
 			default:
 				continue
 			}
 		}
 		for _, t := range declTypes() {
+			if tf.Quick && !quickDeclType[t.label] {
+				continue
+			}
 			if tf.Short {
 				hasClass := false
 				for _, a := range t.atoms {
@@ -272,6 +287,13 @@ func genTypeCases(tf *TypeFixture) []*Case {
 				}
 			}
 			for _, v := range valKinds() {
+				if tf.Quick && strings.HasSuffix(bd.name, "-default") {
+					switch v.label {
+					case "null", "int", "str", "list", "objC", "objU":
+					default:
+						continue
+					}
+				}
 				out = append(out, tf.buildTypeCase(bd, t, v))
 			}
 		}
